@@ -1,6 +1,6 @@
 """Engine E3: consumer groups -- ConsumerGroup/Generation life cycle (C15) and group Reader commits (C03);
 also the reader/group part of C09."""
-import json, os, random, re
+import json, os, random, re, time
 from vlib import Inconclusive, read_ndjson, write_ndjson, split_traces
 
 ENGINE = "group"
@@ -275,24 +275,40 @@ def monitor(ctx, scripts, traces, invs, maxviol=30):
     return checked
 
 
-def conformance(ctx, traces):
-    """Generation accounting events of every trace against the accounting actions of Group.tla (GenTrace.tla)."""
-    divs = []
+# actions of Group.tla (spec/group/Group.tla, Next) and the counters of GroupTrace.tla that stand for them
+GROUP_ACTIONS = {
+    "JoinOK": ["JoinOK", "JoinOK_lax"], "JoinFail": ["JoinFail", "JoinFail_lax"], "JoinWhenClosed": ["JoinWhenClosed"],
+    "WatchStart": ["WatchStart"], "Offer": ["Offer"], "AppNext": ["AppNext"], "Start": ["Start", "Start_untracked"],
+    "FnReturn": ["FnReturn", "FnReturn_untracked", "FnReturn_watcher"], "HeartbeatSend": ["HeartbeatSend", "HeartbeatSend_lax"],
+    "HeartbeatReply": ["HeartbeatReply_ok", "HeartbeatReply_fail"], "HeartbeatStop": ["HeartbeatStop"],
+    "GenCloseBegin": ["GenCloseBegin"], "GenCloseEnd": ["GenCloseEnd"], "Leave": ["Leave", "Leave_noid"],
+    "ReportErr": ["ReportErr", "ReportErr_closed"], "Backoff": ["Backoff"], "CloseCall": ["CloseCall"], "CloseReturn": ["CloseReturn"],
+}
+
+
+def _trace_spec(ctx, module, cfg, traces, why, locate):
+    """Run a trace specification over the concatenation of `traces`; a diverging trace is recorded and the run is
+    repeated on the traces after it.  Returns (accepted, divergences, [TLC result of every accepting run])."""
+    divs, runs, good = [], [], []
     remaining = list(traces)
     accepted = 0
     while remaining and len(divs) < 20:
-        tf = os.path.join(ctx.work, "gconf-in.ndjson")
+        tf = os.path.join(ctx.work, "gconf-%s-in.ndjson" % module)
         write_ndjson(tf, [e for t in remaining for e in t])
-        r = ctx.tlc(ENGINE, "GenTrace", "GenTrace.cfg", workers=1, timeout=2400, env={"TRACE": tf})
+        r = ctx.tlc(ENGINE, module, cfg, workers=1, timeout=1200, env={"TRACE": tf}, extra=["-difftrace"])
         if r["postcondition_failed"] or r["violated"]:
-            m = re.search(r'"DIVERGED_AT_LINE",\s*(\d+)', r["out"])
-            line = int(m.group(1)) if m else (r["depth"] or 1)
+            line, member = locate(r)
             n = 0
             for k, t in enumerate(remaining):
                 if line <= n + len(t):
                     ev = t[line - n - 1] if 0 < line - n <= len(t) else {}
-                    divs.append({"trace": t[0].get("id"), "event": ev, "why": r["violated"] or "not an accounting step of Group.tla"})
+                    d = {"trace": t[0].get("id"), "event": ev, "why": ("invariant %s of Group.tla" % r["violated"]) if r["violated"] else why,
+                         "spec": module}
+                    if member:
+                        d["member"] = member
+                    divs.append(d)
                     accepted += k
+                    good += remaining[:k]
                     remaining = remaining[k + 1:]
                     break
                 n += len(t)
@@ -302,8 +318,54 @@ def conformance(ctx, traces):
         if r["error"] or r["timeout"]:
             raise Inconclusive("conformance run failed: " + (r["error"] or r["out"][-1500:]))
         accepted += len(remaining)
+        good += remaining
+        runs.append(r)
         remaining = []
-    return accepted, divs
+    return accepted, divs, runs, good
+
+
+def conformance(ctx, traces):
+    """cg-mode traces (bare kafka.ConsumerGroup): every event of every member against the actions of the whole of
+    Group.tla (GroupTrace.tla).  Reader-mode traces (the application is kafka.Reader): the Generation accounting events
+    against the accounting actions of Group.tla (GenTrace.tla).  Divergences are reported, never a verdict."""
+    cg = [t for t in traces if t[0].get("mode") == "cg"]
+    rd = [t for t in traces if t[0].get("mode") != "cg"]
+
+    def loc_gen(r):
+        m = re.search(r'"DIVERGED_AT_LINE",\s*(\d+)', r["out"])
+        return (int(m.group(1)) if m else (r["depth"] or 1)), None
+
+    def loc_group(r):
+        if r["violated"]:       # state after the offending event: l is the next line
+            ls = re.findall(r"^/\\ l = (\d+)", r["out"], re.M)
+            ms = re.findall(r"^/\\ me = (\d+)", r["out"], re.M)
+            return (int(ls[-1]) - 1 if ls else 1), (int(ms[-1]) if ms else None)
+        found = re.findall(r'"DIVERGED_AT_LINE",\s*(\d+),\s*"member",\s*(\d+)', r["out"])
+        if not found:
+            return 1, None
+        line, member = min((int(a), int(b)) for a, b in found)
+        return line, member
+
+    t0 = time.time()
+    acc_rd, div_rd, _, _ = _trace_spec(ctx, "GenTrace", "GenTrace.cfg", rd, "not an accounting step of Group.tla", loc_gen)
+    acc_cg, div_cg, runs, good = _trace_spec(ctx, "GroupTrace", "GroupTrace.cfg", cg, "no action of Group.tla matches the event", loc_group)
+    counts, states, events = {}, 0, sum(len(t) for t in good)
+    for r in runs:       # (action counters: of the accepting runs only)
+        states += r["distinct"]
+        for blk in re.findall(r'<<"COUNTS",\s*\d+,\s*\[(.*?)\]\s*>>', r["out"], re.S):
+            for name, v in re.findall(r"(\w+) \|-> (\d+)", blk):
+                counts[name] = counts.get(name, 0) + int(v)
+    per_action = {a: sum(counts.get(c, 0) for c in cs) for a, cs in GROUP_ACTIONS.items()}
+    ctx.conformance_cov = {
+        "grouptrace_traces_accepted": acc_cg, "grouptrace_traces": len(cg), "grouptrace_events": events,
+        "grouptrace_member_projections": 2 * acc_cg, "grouptrace_states": states,
+        "grouptrace_action_matches": per_action,
+        "grouptrace_actions_never_matched": sorted(a for a, n in per_action.items() if n == 0),
+        "grouptrace_counters": {k: v for k, v in sorted(counts.items()) if k != "traces"},
+        "gentrace_reader_traces_accepted": acc_rd, "gentrace_reader_traces": len(rd),
+        "conformance_seconds": round(time.time() - t0, 1),
+    }
+    return acc_rd + acc_cg, div_rd + div_cg
 
 
 def model_check(ctx):
@@ -366,8 +428,10 @@ def run_part(ctx, prop):
     if prop == "C15":
         accepted, divs = conformance(ctx, traces)
         cov.update({"accounting_traces_accepted": accepted, "divergence_count": len(divs), "divergences": divs[:10]})
+        cov.update(getattr(ctx, "conformance_cov", {}))
         if divs:
-            ctx.notes.append("DIVERGENCE: %d trace(s): Generation accounting events are not steps of Group.tla" % len(divs))
+            ctx.notes.append("DIVERGENCE: %d trace(s): recorded events are not steps of Group.tla (%s)"
+                             % (len(divs), ", ".join(sorted({d["spec"] for d in divs}))))
             print("DIVERGENCE property=C15 traces=%d first=%s" % (len(divs), json.dumps(divs[0])[:300]), flush=True)
     cov.update({"traces_validated_against_impl": checked, "scenarios": len(scripts), "trace_events": sum(len(t) for t in traces),
                 "invariants": PROP_INVS[prop],
